@@ -194,6 +194,7 @@ def extract(prog: Program) -> Model:
     # ---- sibling loop: summary run (initial state, what is returned) ---------------------------------
     cfg = Config()
     cfg.opaque = set(OPAQUE)
+    cfg.loop_effects = False
     leaves = I.run_function(CORE, "TagList.get_html_string", _tl_args, cfg)
     rets = [l for l in leaves if l.kind == "return"]
     if not rets:
@@ -239,6 +240,7 @@ def extract(prog: Program) -> Model:
     # ---- element frame ----------------------------------------------------------------------------------
     cfg3 = Config()
     cfg3.opaque = set(OPAQUE) - {"Tag.get_html_string"}
+    cfg3.loop_effects = False
     m.frame_leaves = I.run_function(CORE, "Tag.get_html_string", _tag_args, cfg3)
 
     # ---- attribute loop body ---------------------------------------------------------------------------------
